@@ -484,21 +484,21 @@ def subchecks():
             name="pickle-twin",
             run_case=run_pickle_twin,
             strategy=lambda tier: twin_case(tier),
-            examples={"quick": 1500, "thorough": 60000},
+            examples={"quick": 4000, "thorough": 60000},
             case_timeout=30.0,
         ),
         SubCheck(
             name="resume",
             run_case=run_resume,
             strategy=lambda tier: resume_case(tier),
-            examples={"quick": 1200, "thorough": 50000},
+            examples={"quick": 3000, "thorough": 50000},
             case_timeout=30.0,
         ),
         SubCheck(
             name="resume-exhaust",
             run_case=run_resume_exhaust,
             strategy=lambda tier: exhaust_case(tier),
-            examples={"quick": 1000, "thorough": 40000},
+            examples={"quick": 2500, "thorough": 40000},
             case_timeout=30.0,
         ),
         SubCheck(
